@@ -7,7 +7,7 @@ import sys
 LEVEL = "exploration"
 RULE = ("Every call depth 1..N x every subset of levels that start a new nested greenlet (3.12 leg; other interpreters run the "
         "greenlet-free subset) x every assignment of frame kind {plain function, running generator, running coroutine} per level; "
-        "from the innermost frame: extract_since(None) must end with the manually walked stack and contain no stackscope frame; "
+        "the calling code placed in its own module and (depth <= 2) in modules named stackscope_helpers / stackscopex.sub / my.stackscope.glue; from the innermost frame: extract_since(None) must end with the manually walked stack and contain no stackscope frame; "
         "for EVERY outer in {None} + stack, inner in {None} + stack (outer not inward of inner), limit in {None, 1..n+1}: "
         "extract(StackSlice(outer, inner, limit)) must be the corresponding contiguous sub-list with the documented limit anchor; "
         "extract_since(frame) for every frame; extract_until(frame, limit) for every frame and every int limit and every "
@@ -148,11 +148,29 @@ def configs(tier):
                 yield (list(splits), "".join(kinds))
 
 
-def run_config(splits, kinds):
+_CLONES = {}
+
+
+def clone_into_module(modname):
+    """Copies of this module's stack-building functions whose globals claim to be module `modname`."""
+    if modname in _CLONES:
+        return _CLONES[modname]
+    import types as _t
+    g = dict(globals())
+    g["__name__"] = modname
+    for name in ("true_stack", "level", "observe"):
+        f = globals()[name]
+        g[name] = _t.FunctionType(f.__code__, g, name, f.__defaults__, f.__closure__)
+    _CLONES[modname] = g
+    return g
+
+
+def run_config(splits, kinds, modname=None):
     res = {"cnt": 0, "bad": []}
+    lvl = level if modname is None else clone_into_module(modname)["level"]
 
     def base_fn():
-        return level(0, splits, sys._getframe(0), kinds, res)
+        return lvl(0, splits, sys._getframe(0), kinds, res)
     base_fn()
     return res
 
@@ -161,17 +179,21 @@ def run(ctx):
     for idx, (splits, kinds) in enumerate(configs(ctx.tier)):
         if not ctx.mine(idx):
             continue
-        res = run_config(splits, kinds)
-        ctx.count("evaluations", res["cnt"])
-        ctx.count("distinct_nontrivial")
-        ctx.count("configs")
-        for b in res["bad"][:3]:
-            ctx.violation({"splits": splits, "kinds": kinds, "tag": [str(x) for x in b[0]] if isinstance(b[0], tuple) else b[0]},
-                          "%r: got %r expected %r error %s" % b, str(b[0][0]) if isinstance(b[0], tuple) else "full")
+        # the calling code normally lives in this module; for shallow stacks it is also placed in modules whose names
+        # merely begin like the library's (only frames of the library itself may be skipped when looking for the caller)
+        mods = [None] + (["stackscope_helpers", "stackscopex.sub", "my.stackscope.glue"] if len(kinds) <= 2 else [])
+        for modname in mods:
+            res = run_config(splits, kinds, modname)
+            ctx.count("evaluations", res["cnt"])
+            ctx.count("distinct_nontrivial")
+            ctx.count("configs")
+            for b in res["bad"][:3]:
+                ctx.violation({"splits": splits, "kinds": kinds, "module": modname, "tag": [str(x) for x in b[0]] if isinstance(b[0], tuple) else b[0]},
+                              "%r: got %r expected %r error %s" % b, str(b[0][0]) if isinstance(b[0], tuple) else "full")
         if idx % 97 == 0:
             ctx.sample({"splits": splits, "kinds": kinds, "checks": res["cnt"]})
 
 
 def replay(case):
-    res = run_config(case["splits"], case["kinds"])
+    res = run_config(case["splits"], case["kinds"], case.get("module"))
     return [{"detail": "%r: got %r expected %r error %s" % b} for b in res["bad"][:5]]
